@@ -11,7 +11,7 @@ pub fn run(cx: &mut Ctx) {
     let (maxlen, keysets) = match cx.tier {
         crate::ctx::Tier::Tiny => (40usize, 1usize),
         crate::ctx::Tier::Quick => (320, 2),
-        crate::ctx::Tier::Thorough => (1100, 8),
+        crate::ctx::Tier::Thorough => (1100, 24),
     };
     let specials: &[usize] = if cx.tier == crate::ctx::Tier::Tiny { &[1024] } else { &[1023, 1024, 1025, 4095, 4096, 4097, 65535, 65536, 65537] };
     let encs = enc_forms_for(cx);
